@@ -133,6 +133,8 @@ def instances(tier, seed):
     add("rt:frac:t2:dihedral+improper", cell='t2', N=2, terms={'dihedral': 1, 'improper': 1}, fract=True, cost=60)
     add("rt:frac:t3:bond+angle-extra", cell='t3', N=2, terms={'bond': 1, 'angle': 1}, fract=True, extra_angle_only=True, cost=60)
     add("rt:cart:t4:bond+extra", cell='t4', N=2, terms={'bond': 1}, fract=False, extra=True, cost=30)
+    add("rt:frac:tr:arbitrary-orientation", cell='tr', N=2, terms={'bond': 1}, fract=True, cost=30)
+    add("rt:frac:orot:two-extra-term-columns", cell='orot', N=2, terms={'bond': 1, 'angle': 1, 'dihedral': 1}, fract=True, extra2=True, cost=30)
     add("rt:cart:nocell", cell=None, N=2, terms={}, fract=True, cost=5)
     # two atom types of the same element (force-field typed structure): labels must still be unique per atom
     add("rt:frac:o1:two-types-one-element", cell='o1', N=3, terms={'bond': 1, 'angle': 1}, fract=True, typed=True, cost=30)
@@ -188,8 +190,11 @@ def body(ctx, p):
             lab = [f'_geom_{"torsion" if k == "dihedral" else k}_note']
         if p.get('extra_angle_only') and k == 'angle':
             lab = ['_geom_angle_note']
+        if p.get('extra2') and k in ('bond', 'angle', 'dihedral'):
+            nm = 'torsion' if k == 'dihedral' else k
+            lab = [f'_geom_{nm}_type', f'_geom_{nm}_distance', f'_geom_{nm}_aaa']       # deliberately not in alphabetical order
         setattr(a, f'extra_{k}_labels', type(a.extra_atom_labels)(lab))
-        setattr(a, f'extra_{k}_fields', np.array([[f"{k}{j}x"] * len(lab) for j in range(n)], dtype=object).reshape((n, len(lab))))
+        setattr(a, f'extra_{k}_fields', np.array([[f"{k}{j}x{c}" for c in range(len(lab))] for j in range(n)], dtype=object).reshape((n, len(lab))))
         xl[k] = lab
     f = io.StringIO()
     a.save_p1_cif(f, use_fract_coords=bool(p['fract']))
@@ -246,7 +251,7 @@ def body(ctx, p):
             continue
         want = xl.get(k, [])
         got = list(getattr(r, f'extra_{k}_labels'))
-        ctx.require(f'extra per-{k} columns reproduced', got == want and all(list(map(str, row)) == [f"{k}{j}x"] * len(want) for j, row in enumerate(getattr(r, f'extra_{k}_fields')[:p['terms'][k]])),
+        ctx.require(f'extra per-{k} columns reproduced', got == want and all(list(map(str, row)) == [f"{k}{j}x{c}" for c in range(len(want))] for j, row in enumerate(getattr(r, f'extra_{k}_fields')[:p['terms'][k]])),
                     detail=dict(kind=k, got=got, want=want))
     # second write of the re-read structure = first write of it re-read once more (idempotent text)
     f2 = io.StringIO()
